@@ -2,6 +2,7 @@ package caskettls
 
 import (
 	"crypto/ecdsa"
+	"crypto/ed25519"
 	"crypto/rand"
 	"crypto/rsa"
 	"crypto/tls"
@@ -64,6 +65,9 @@ func newSelfSignedCertificate(ssconfig selfSignedConfig) (tls.Certificate, error
 			return &k.PublicKey
 		case *ecdsa.PrivateKey:
 			return &k.PublicKey
+		case ed25519.PrivateKey:
+			// key_type ed25519 is a supported key type
+			return k.Public()
 		default:
 			return fmt.Errorf("unknown key type")
 		}
